@@ -80,6 +80,8 @@ pub fn base_slice(name: &'static str, prop: &'static str, tcp: bool) -> Slice {
         cancel_rtx: false,
         configs: vec![],
         set_remote: vec![],
+        set_local: vec![],
+        rebuild: vec![],
         max_live: 3,
         max_sends: 4,
         drain: true,
@@ -145,6 +147,7 @@ pub fn c07(ctx: &Ctx) -> Report {
         resp.push((3, Auth::None, 2));
         s.resp = resp;
         s.set_remote = vec![1, 2];
+        s.set_local = vec![1];
         s.configs = vec![1];
         runs.push(SliceRun { slice: s, depth: ctx.tier.pick(9, 12) });
     }
@@ -184,7 +187,9 @@ pub fn c18(ctx: &Ctx) -> Report {
         s.poll_whens = vec![When::Wake, When::WakePlus700];
         s.configs = vec![1];
         s.resp = vec![(2, Auth::Sha1(2), 0)];
-        runs.push(SliceRun { slice: s, depth: ctx.tier.pick(9, 12) });
+        s.set_local = vec![0];
+        s.rebuild = vec![1];
+        runs.push(SliceRun { slice: s, depth: ctx.tier.pick(8, 11) });
     }
     let req = ["timed out", "two requests due at one poll, non-default order taken"];
     run_slices(ctx, runs, &req, "all histories up to the depth over {send with two payload shapes to P1/P2, send indication / success / error response, poll at wake / wake+700ms x all orders, configure (7ms,3,0), one dropped response}, UDP and TCP, drain from every state so that every retransmission of every schedule position is inspected: bytes = the harness' own serialisation, from = local, to = destination, transport, peer_address", None)
@@ -205,9 +210,11 @@ pub fn c20(ctx: &Ctx) -> Report {
         s.cancel_rtx = true;
         s.configs = vec![0, 1, 3];
         s.set_remote = vec![1];
+        s.set_local = vec![0];
+        s.rebuild = vec![1];
         s.drain = false;
         s.differential = true;
-        runs.push(SliceRun { slice: s, depth: ctx.tier.pick(6, 7) });
+        runs.push(SliceRun { slice: s, depth: ctx.tier.pick(5, 7) });
     }
     let req = ["response delivered", "timed out"];
     run_slices(ctx, runs, &req, "every unique state's history of the union slice is replayed on a fresh thread that never ran an agent (reference) and then, on a second fresh thread in this order, (1) with the time base shifted by 10^9 ms, 1 day and 1 ms, (2) unchanged after those later histories, (3) interleaved step by step with an unrelated agent on the other transport running an hour ahead, (4) with the time base at the wall clock and an hour before it, and (5) with the agent handed to another thread half way (that thread drove an unrelated agent an hour ahead before); observations (with instants relative to the base) must be identical", None)
